@@ -520,6 +520,11 @@ def t_clang_xref(files):
 
 
 import os
+def t_rf59_all(run):
+    rf_mir2c.rf59(run, exhaustive=True)
+    run.min_instances('RF59', 1000)
+
+
 THOROUGH = {
     'C01': [t_rf25_all, t_clang_xref(['mir-gen.c'])],
     'C02': [t_rf25_all, t_rf6_assertions(['mir']), t_clang_xref(['mir.c', 'mir-gen.c'])],
@@ -535,5 +540,5 @@ THOROUGH = {
     'C16': [t_rf6_all(['gen']), t_rf20_all(['gen'])],
     'C17': [t_rf20_all(['mir', 'gen', 'c2mir']), t_clang_xref(['c2mir/c2mir.c'])],
     'C18': [t_clang_xref(['mir.c', 'mir-gen.c', 'c2mir/c2mir.c'])],
-    'C20': [t_rf6_assertions(['mir2c']), t_clang_xref(['mir2c/mir2c.c'])],
+    'C20': [t_rf6_assertions(['mir2c']), t_clang_xref(['mir2c/mir2c.c']), t_rf59_all],
 }
